@@ -74,6 +74,9 @@ type Fault struct {
 	Kind     string `json:"kind"`      // see ReadFaultKinds
 	WithData bool   `json:"with_data"` // delivered together with the last good bytes (n>0, err) instead of alone (0, err)
 	Sticky   bool   `json:"sticky"`    // every later Read fails too (broken connection) instead of succeeding (transient)
+	// ThenEOF: the error is reported once and every later Read answers io.EOF (a connection that died: the transport
+	// reported it, then the stream is simply over). The bytes behind the fault are never delivered.
+	ThenEOF bool `json:"then_eof,omitempty"`
 }
 
 // ReadPlan is a delivery schedule for one document.
@@ -232,6 +235,9 @@ func (r *Reader) fire() error {
 	r.St.FaultsFired[f.Kind]++
 	if f.Sticky {
 		r.dead = e
+	}
+	if f.ThenEOF {
+		r.dead = io.EOF
 	}
 	return e
 }
